@@ -15,6 +15,14 @@
 (* Known deviation: Dev_ForeignCloseErasesIndex = closeNow() erases _peerIndex[pkey] unconditionally         *)
 (* (F-06a); FALSE models the repaired code (erase only when the entry points to the closing session).        *)
 (*                                                                                                          *)
+(* Bursts (MaxBurst > 0): datagrams can also ARRIVE in a socket's receive queue while the I/O thread is busy   *)
+(* (ArriveL / ArriveC); epoll then notifies the socket (edge-triggered: once per arrival edge, ET = TRUE;     *)
+(* level-triggered: as long as the queue is not empty) and the handler reads "until EAGAIN" as its own loop:  *)
+(* EpollInL/EpollInC, one ReadKnown / ReadAccept / ReadCapDrop / ReadC per recvfrom, ReadStopL/ReadStopC when *)
+(* the queue is empty.  Dev_ReadBudget = the loop also stops after Budget datagrams (a per-wake-up read       *)
+(* budget): on an edge-triggered descriptor the rest is stranded (Inv_NoStrand).  The atomic Dg* / CliDg      *)
+(* actions are the special case "one datagram arrives at an idle engine and is read at once".                *)
+(*                                                                                                          *)
 (* The size class z of a datagram is an action parameter only: it selects the concrete datagram length in    *)
 (* the conformance driver ({1, 1472, 65507} bytes) and has no influence on the model state.                  *)
 EXTENDS Integers, Sequences, FiniteSets, TLC
@@ -22,7 +30,9 @@ EXTENDS Integers, Sequences, FiniteSets, TLC
 CONSTANTS Peers, Listeners, MaxSid, MaxSteps, Sizes,
           Cap,        \* TransportConfig::maxSessions (0 = unlimited)
           MaxWq,      \* TransportConfig::maxWriteQueue
-          Dev_ForeignCloseErasesIndex
+          MaxBurst,   \* datagrams that may wait in one socket receive queue (0 = no bursts: only the atomic Dg* actions)
+          Budget, ET, \* read budget of the Dev_ReadBudget deviation; edge- (TRUE) or level-triggered epoll
+          Dev_ForeignCloseErasesIndex, Dev_ReadBudget
 
 VARIABLES sess,       \* [1..MaxSid -> [st, role, peer, owner]]   st: "none" | "open" | "closed"
           nextSid,
@@ -37,17 +47,28 @@ VARIABLES sess,       \* [1..MaxSid -> [st, role, peer, owner]]   st: "none" | "
           wire,       \* set of [id, to]  datagrams handed to the kernel
           owner,      \* [Peers \X Listeners -> 0..MaxSid]  the session that received this peer's last datagram on that listener
           stickyOk, rxOk,
-          steps
-vars == <<sess, nextSid, peerIndex, lq, cq, blockedL, blockedC, stale, nextId, sent, wire, owner, stickyOk, rxOk, steps>>
+          steps,
+          \* ---- bursts
+          rq,         \* [RSocks -> Seq([p, z])]  socket receive queues (listener sockets and connected client sockets)
+          inEvt,      \* sockets with an EPOLLIN event queued (edge-triggered bookkeeping)
+          rd, cnt     \* the socket whose read loop is running (None when idle) and the datagrams it has read in this loop
+core == <<sess, nextSid, peerIndex, lq, cq, blockedL, blockedC, stale, nextId, sent, wire, owner, stickyOk, rxOk>>
+burst == <<rq, inEvt, rd, cnt>>
+vars == <<sess, nextSid, peerIndex, lq, cq, blockedL, blockedC, stale, nextId, sent, wire, owner, stickyOk, rxOk, steps,
+          rq, inEvt, rd, cnt>>
 
 Sids == 1..MaxSid
+None == <<"-", 0>>
+LS(l) == <<"L", l>>
+CS(c) == <<"C", c>>
+RSocks == {LS(l) : l \in Listeners} \cup {CS(c) : c \in Sids}
 NoSess == [st |-> "none", role |-> "-", peer |-> "-", owner |-> 0]
 IsOpen(s) == s \in Sids /\ sess[s].st = "open"
 OpenSet == {s \in Sids : sess[s].st = "open"}
 CapReached == Cap > 0 /\ Cardinality(OpenSet) >= Cap
 FlushPending == (\E l \in Listeners : l \notin blockedL /\ lq[l] # <<>>)
                 \/ (\E s \in Sids : IsOpen(s) /\ s \notin blockedC /\ cq[s] # <<>>)
-CanStep == steps < MaxSteps /\ ~FlushPending
+CanStep == steps < MaxSteps /\ ~FlushPending /\ rd = None          \* (the I/O thread is not inside a read loop)
 
 Init == /\ sess = [s \in Sids |-> NoSess] /\ nextSid = 1
         /\ peerIndex = [p \in Peers |-> 0]
@@ -56,49 +77,52 @@ Init == /\ sess = [s \in Sids |-> NoSess] /\ nextSid = 1
         /\ nextId = 1 /\ sent = <<>> /\ wire = {}
         /\ owner = [k \in Peers \X Listeners |-> 0]
         /\ stickyOk = TRUE /\ rxOk = TRUE /\ steps = 0
+        /\ rq = [k \in RSocks |-> <<>>] /\ inEvt = {} /\ rd = None /\ cnt = 0
 
 Step == steps' = steps + 1
 OwnerOpen(p, l) == owner[<<p, l>>] # 0 /\ IsOpen(owner[<<p, l>>])
 
 \* ------------------------------------------------------------------ inbound on a listener socket
-DgKnown(p, l, z) ==
-    /\ CanStep /\ peerIndex[p] # 0
+\* what readFromListener does with ONE datagram from p read on listener l (core variables only)
+DispKnown(p, l) ==
+    /\ peerIndex[p] # 0
     /\ LET s == peerIndex[p] IN
        /\ rxOk' = (rxOk /\ IsOpen(s) /\ sess[s].peer = p)              \* one data event on s
        /\ stickyOk' = (stickyOk /\ (OwnerOpen(p, l) => s = owner[<<p, l>>]))
        /\ owner' = [owner EXCEPT ![<<p, l>>] = s]
        /\ stale' = stale \ {s}
-    /\ Step
     /\ UNCHANGED <<sess, nextSid, peerIndex, lq, cq, blockedL, blockedC, nextId, sent, wire>>
-
-DgAccept(p, l, z) ==
-    /\ CanStep /\ peerIndex[p] = 0 /\ ~CapReached /\ nextSid <= MaxSid
+DispAccept(p, l) ==
+    /\ peerIndex[p] = 0 /\ ~CapReached /\ nextSid <= MaxSid
     /\ LET s == nextSid IN
        /\ sess' = [sess EXCEPT ![s] = [st |-> "open", role |-> "srv", peer |-> p, owner |-> l]]   \* onAccept(s, p)
        /\ peerIndex' = [peerIndex EXCEPT ![p] = s]
        /\ owner' = [owner EXCEPT ![<<p, l>>] = s]                                                   \* onData(s)
     /\ stickyOk' = (stickyOk /\ ~OwnerOpen(p, l))      \* a new accept although the receiving session is open
-    /\ nextSid' = nextSid + 1 /\ Step
+    /\ nextSid' = nextSid + 1
     /\ UNCHANGED <<lq, cq, blockedL, blockedC, stale, nextId, sent, wire, rxOk>>
-
-DgCapDrop(p, l, z) ==
-    /\ CanStep /\ peerIndex[p] = 0 /\ CapReached
+DispCapDrop(p, l) ==
+    /\ peerIndex[p] = 0 /\ CapReached
     /\ stickyOk' = (stickyOk /\ ~OwnerOpen(p, l))      \* silenced although the receiving session is open
-    /\ Step
     /\ UNCHANGED <<sess, nextSid, peerIndex, lq, cq, blockedL, blockedC, stale, nextId, sent, wire, owner, rxOk>>
+
+\* one datagram arrives at an idle engine and is read at once
+DgKnown(p, l, z) == CanStep /\ rq[LS(l)] = <<>> /\ DispKnown(p, l) /\ Step /\ UNCHANGED burst
+DgAccept(p, l, z) == CanStep /\ rq[LS(l)] = <<>> /\ DispAccept(p, l) /\ Step /\ UNCHANGED burst
+DgCapDrop(p, l, z) == CanStep /\ rq[LS(l)] = <<>> /\ DispCapDrop(p, l) /\ Step /\ UNCHANGED burst
 
 \* ------------------------------------------------------------------ client (connected) sessions
 Connect(p) ==
     /\ CanStep /\ nextSid <= MaxSid
     /\ sess' = [sess EXCEPT ![nextSid] = [st |-> "open", role |-> "cli", peer |-> p, owner |-> 0]]  \* onConnect
     /\ nextSid' = nextSid + 1 /\ Step
-    /\ UNCHANGED <<peerIndex, lq, cq, blockedL, blockedC, stale, nextId, sent, wire, owner, stickyOk, rxOk>>
+    /\ UNCHANGED <<peerIndex, lq, cq, blockedL, blockedC, stale, nextId, sent, wire, owner, stickyOk, rxOk>> /\ UNCHANGED burst
 
 CliDg(p, s, z) ==
-    /\ CanStep /\ IsOpen(s) /\ sess[s].role = "cli" /\ sess[s].peer = p
+    /\ CanStep /\ IsOpen(s) /\ sess[s].role = "cli" /\ sess[s].peer = p /\ rq[CS(s)] = <<>>
     /\ stale' = stale \ {s}                                                                           \* onData(s)
     /\ Step
-    /\ UNCHANGED <<sess, nextSid, peerIndex, lq, cq, blockedL, blockedC, nextId, sent, wire, owner, stickyOk, rxOk>>
+    /\ UNCHANGED <<sess, nextSid, peerIndex, lq, cq, blockedL, blockedC, nextId, sent, wire, owner, stickyOk, rxOk>> /\ UNCHANGED burst
 
 \* ------------------------------------------------------------------ connect-via-listener
 Via(l, p) ==
@@ -106,13 +130,13 @@ Via(l, p) ==
     /\ sess' = [sess EXCEPT ![nextSid] = [st |-> "open", role |-> "via", peer |-> p, owner |-> l]]  \* onConnect
     /\ peerIndex' = IF peerIndex[p] = 0 THEN [peerIndex EXCEPT ![p] = nextSid] ELSE peerIndex
     /\ nextSid' = nextSid + 1 /\ Step
-    /\ UNCHANGED <<lq, cq, blockedL, blockedC, stale, nextId, sent, wire, owner, stickyOk, rxOk>>
+    /\ UNCHANGED <<lq, cq, blockedL, blockedC, stale, nextId, sent, wire, owner, stickyOk, rxOk>> /\ UNCHANGED burst
 
 ViaCapClose(l, p) ==
     /\ CanStep /\ nextSid <= MaxSid /\ CapReached
     /\ sess' = [sess EXCEPT ![nextSid] = [st |-> "closed", role |-> "via", peer |-> p, owner |-> l]] \* onClose only
     /\ nextSid' = nextSid + 1 /\ Step
-    /\ UNCHANGED <<peerIndex, lq, cq, blockedL, blockedC, stale, nextId, sent, wire, owner, stickyOk, rxOk>>
+    /\ UNCHANGED <<peerIndex, lq, cq, blockedL, blockedC, stale, nextId, sent, wire, owner, stickyOk, rxOk>> /\ UNCHANGED burst
 
 \* ------------------------------------------------------------------ closing
 \* closeNow(s): the repaired design erases the index entry only when it points to s
@@ -134,18 +158,18 @@ CloseSet(S) ==
 Close(s) ==
     /\ CanStep /\ IsOpen(s)
     /\ CloseSet({s}) /\ Step
-    /\ UNCHANGED <<nextSid, lq, blockedL, nextId, sent, wire, owner, stickyOk, rxOk>>
+    /\ UNCHANGED <<nextSid, lq, blockedL, nextId, sent, wire, owner, stickyOk, rxOk>> /\ UNCHANGED burst
 
 \* the idle timeout passes without any activity ...
 Advance ==
     /\ CanStep /\ OpenSet # {} /\ stale # OpenSet
     /\ stale' = OpenSet /\ Step
-    /\ UNCHANGED <<sess, nextSid, peerIndex, lq, cq, blockedL, blockedC, nextId, sent, wire, owner, stickyOk, rxOk>>
+    /\ UNCHANGED <<sess, nextSid, peerIndex, lq, cq, blockedL, blockedC, nextId, sent, wire, owner, stickyOk, rxOk>> /\ UNCHANGED burst
 \* ... and the GC timer closes every session that stayed idle
 GcRun ==
     /\ CanStep /\ stale \cap OpenSet # {}
     /\ CloseSet(stale \cap OpenSet) /\ Step
-    /\ UNCHANGED <<nextSid, lq, blockedL, nextId, sent, wire, owner, stickyOk, rxOk>>
+    /\ UNCHANGED <<nextSid, lq, blockedL, nextId, sent, wire, owner, stickyOk, rxOk>> /\ UNCHANGED burst
 
 \* ------------------------------------------------------------------ outbound
 SockBlocked(s) == IF sess[s].role = "cli" THEN s \in blockedC ELSE sess[s].owner \in blockedL
@@ -157,7 +181,7 @@ SendOk(s, z) ==
     /\ wire' = wire \cup {[id |-> nextId, to |-> sess[s].peer]}          \* one send()/sendto() to the session's peer
     /\ stale' = stale \ {s}
     /\ nextId' = nextId + 1 /\ Step
-    /\ UNCHANGED <<sess, nextSid, peerIndex, lq, cq, blockedL, blockedC, owner, stickyOk, rxOk>>
+    /\ UNCHANGED <<sess, nextSid, peerIndex, lq, cq, blockedL, blockedC, owner, stickyOk, rxOk>> /\ UNCHANGED burst
 
 QLenAfter(s) == IF sess[s].role = "cli" THEN Len(cq[s]) + 1 ELSE Len(lq[sess[s].owner]) + 1
 
@@ -169,7 +193,7 @@ SendEagain(s, z) ==
          THEN cq' = [cq EXCEPT ![s] = Append(@, nextId)] /\ UNCHANGED lq
          ELSE lq' = [lq EXCEPT ![sess[s].owner] = Append(@, [to |-> sess[s].peer, id |-> nextId])] /\ UNCHANGED cq
     /\ nextId' = nextId + 1 /\ Step
-    /\ UNCHANGED <<sess, nextSid, peerIndex, blockedL, blockedC, stale, wire, owner, stickyOk, rxOk>>
+    /\ UNCHANGED <<sess, nextSid, peerIndex, blockedL, blockedC, stale, wire, owner, stickyOk, rxOk>> /\ UNCHANGED burst
 
 \* EAGAIN with a full queue, default closeOnBackpressure: the session is closed (a listener keeps the datagram queued)
 SendEagainBp(s, z) ==
@@ -179,7 +203,7 @@ SendEagainBp(s, z) ==
              ELSE [lq EXCEPT ![sess[s].owner] = Append(@, [to |-> sess[s].peer, id |-> nextId])]
     /\ CloseSet({s})
     /\ nextId' = nextId + 1 /\ Step
-    /\ UNCHANGED <<nextSid, blockedL, wire, owner, stickyOk, rxOk>>
+    /\ UNCHANGED <<nextSid, blockedL, wire, owner, stickyOk, rxOk>> /\ UNCHANGED burst
 
 \* any other errno: no datagram, the session is closed
 SendErr(s, z) ==
@@ -187,37 +211,75 @@ SendErr(s, z) ==
     /\ AcceptSend(s)
     /\ CloseSet({s})
     /\ nextId' = nextId + 1 /\ Step
-    /\ UNCHANGED <<nextSid, lq, blockedL, wire, owner, stickyOk, rxOk>>
+    /\ UNCHANGED <<nextSid, lq, blockedL, wire, owner, stickyOk, rxOk>> /\ UNCHANGED burst
 
 \* send() on a session that is already gone: accepted by the command queue, dropped by sendDo
 SendClosed(s, z) ==
     /\ CanStep /\ s \in Sids /\ sess[s].st = "closed"
     /\ AcceptSend(s)
     /\ nextId' = nextId + 1 /\ Step
-    /\ UNCHANGED <<sess, nextSid, peerIndex, lq, cq, blockedL, blockedC, stale, wire, owner, stickyOk, rxOk>>
+    /\ UNCHANGED <<sess, nextSid, peerIndex, lq, cq, blockedL, blockedC, stale, wire, owner, stickyOk, rxOk>> /\ UNCHANGED burst
 
 \* ------------------------------------------------------------------ kernel writability and the flush handlers
 BlockL(l) == /\ CanStep /\ l \notin blockedL /\ blockedL' = blockedL \cup {l} /\ Step
-             /\ UNCHANGED <<sess, nextSid, peerIndex, lq, cq, blockedC, stale, nextId, sent, wire, owner, stickyOk, rxOk>>
-UnblockL(l) == /\ steps < MaxSteps /\ l \in blockedL /\ blockedL' = blockedL \ {l} /\ Step
-               /\ UNCHANGED <<sess, nextSid, peerIndex, lq, cq, blockedC, stale, nextId, sent, wire, owner, stickyOk, rxOk>>
+             /\ UNCHANGED <<sess, nextSid, peerIndex, lq, cq, blockedC, stale, nextId, sent, wire, owner, stickyOk, rxOk>> /\ UNCHANGED burst
+UnblockL(l) == /\ steps < MaxSteps /\ rd = None /\ l \in blockedL /\ blockedL' = blockedL \ {l} /\ Step
+               /\ UNCHANGED <<sess, nextSid, peerIndex, lq, cq, blockedC, stale, nextId, sent, wire, owner, stickyOk, rxOk>> /\ UNCHANGED burst
 BlockC(s) == /\ CanStep /\ IsOpen(s) /\ sess[s].role = "cli" /\ s \notin blockedC /\ blockedC' = blockedC \cup {s} /\ Step
-             /\ UNCHANGED <<sess, nextSid, peerIndex, lq, cq, blockedL, stale, nextId, sent, wire, owner, stickyOk, rxOk>>
-UnblockC(s) == /\ steps < MaxSteps /\ s \in blockedC /\ blockedC' = blockedC \ {s} /\ Step
-               /\ UNCHANGED <<sess, nextSid, peerIndex, lq, cq, blockedL, stale, nextId, sent, wire, owner, stickyOk, rxOk>>
+             /\ UNCHANGED <<sess, nextSid, peerIndex, lq, cq, blockedL, stale, nextId, sent, wire, owner, stickyOk, rxOk>> /\ UNCHANGED burst
+UnblockC(s) == /\ steps < MaxSteps /\ rd = None /\ s \in blockedC /\ blockedC' = blockedC \ {s} /\ Step
+               /\ UNCHANGED <<sess, nextSid, peerIndex, lq, cq, blockedL, stale, nextId, sent, wire, owner, stickyOk, rxOk>> /\ UNCHANGED burst
 
 \* flushListener: every queued datagram goes out whole, to the destination it was queued with
 FlushL(l) ==
-    /\ l \notin blockedL /\ lq[l] # <<>>
+    /\ rd = None /\ l \notin blockedL /\ lq[l] # <<>>
     /\ wire' = wire \cup {[id |-> lq[l][i].id, to |-> lq[l][i].to] : i \in 1..Len(lq[l])}
     /\ lq' = [lq EXCEPT ![l] = <<>>]
-    /\ UNCHANGED <<sess, nextSid, peerIndex, cq, blockedL, blockedC, stale, nextId, sent, owner, stickyOk, rxOk, steps>>
+    /\ UNCHANGED <<sess, nextSid, peerIndex, cq, blockedL, blockedC, stale, nextId, sent, owner, stickyOk, rxOk, steps>> /\ UNCHANGED burst
 \* writeClient
 FlushC(s) ==
-    /\ IsOpen(s) /\ s \notin blockedC /\ cq[s] # <<>>
+    /\ rd = None /\ IsOpen(s) /\ s \notin blockedC /\ cq[s] # <<>>
     /\ wire' = wire \cup {[id |-> cq[s][i], to |-> sess[s].peer] : i \in 1..Len(cq[s])}
     /\ cq' = [cq EXCEPT ![s] = <<>>]
-    /\ UNCHANGED <<sess, nextSid, peerIndex, lq, blockedL, blockedC, stale, nextId, sent, owner, stickyOk, rxOk, steps>>
+    /\ UNCHANGED <<sess, nextSid, peerIndex, lq, blockedL, blockedC, stale, nextId, sent, owner, stickyOk, rxOk, steps>> /\ UNCHANGED burst
+
+\* ------------------------------------------------------------------ bursts: arrival, epoll notification, read loop
+Ready(k) == IF ET THEN k \in inEvt ELSE rq[k] # <<>>
+LiveSock(k) == k[1] = "L" \/ IsOpen(k[2])
+ArriveL(p, l, z) ==
+    /\ steps < MaxSteps /\ Len(rq[LS(l)]) < MaxBurst
+    /\ rq' = [rq EXCEPT ![LS(l)] = Append(@, [p |-> p, z |-> z])] /\ inEvt' = inEvt \cup {LS(l)}
+    /\ Step /\ UNCHANGED core /\ UNCHANGED <<rd, cnt>>
+ArriveC(p, c, z) ==
+    /\ steps < MaxSteps /\ IsOpen(c) /\ sess[c].role = "cli" /\ sess[c].peer = p /\ Len(rq[CS(c)]) < MaxBurst
+    /\ rq' = [rq EXCEPT ![CS(c)] = Append(@, [p |-> p, z |-> z])] /\ inEvt' = inEvt \cup {CS(c)}
+    /\ Step /\ UNCHANGED core /\ UNCHANGED <<rd, cnt>>
+\* onListener / onClient (EPOLLIN): the read loop starts
+EpollInL(l) ==
+    /\ rd = None /\ ~FlushPending /\ Ready(LS(l))
+    /\ rd' = LS(l) /\ cnt' = 0 /\ inEvt' = inEvt \ {LS(l)}
+    /\ UNCHANGED core /\ UNCHANGED <<rq, steps>>
+EpollInC(c) ==
+    /\ rd = None /\ ~FlushPending /\ IsOpen(c) /\ Ready(CS(c))
+    /\ rd' = CS(c) /\ cnt' = 0 /\ inEvt' = inEvt \ {CS(c)}
+    /\ UNCHANGED core /\ UNCHANGED <<rq, steps>>
+BudgetLeft == Dev_ReadBudget => cnt < Budget
+Pop(k) == rq' = [rq EXCEPT ![k] = Tail(@)] /\ cnt' = cnt + 1 /\ UNCHANGED <<inEvt, rd, steps>>
+\* one recvfrom on the listener socket
+ReadKnown(l) == rd = LS(l) /\ rq[LS(l)] # <<>> /\ BudgetLeft /\ DispKnown(Head(rq[LS(l)]).p, l) /\ Pop(LS(l))
+ReadAccept(l) == rd = LS(l) /\ rq[LS(l)] # <<>> /\ BudgetLeft /\ DispAccept(Head(rq[LS(l)]).p, l) /\ Pop(LS(l))
+ReadCapDrop(l) == rd = LS(l) /\ rq[LS(l)] # <<>> /\ BudgetLeft /\ DispCapDrop(Head(rq[LS(l)]).p, l) /\ Pop(LS(l))
+\* one recv on a connected client socket: a data event on that session
+ReadC(c) == /\ rd = CS(c) /\ rq[CS(c)] # <<>> /\ BudgetLeft
+            /\ stale' = stale \ {c}
+            /\ UNCHANGED <<sess, nextSid, peerIndex, lq, cq, blockedL, blockedC, nextId, sent, wire, owner, stickyOk, rxOk>>
+            /\ Pop(CS(c))
+\* EAGAIN (queue empty) - or, deviation, the read budget of this wake-up is used up
+StopNow(k) == rq[k] = <<>> \/ (Dev_ReadBudget /\ cnt >= Budget)
+ReadStopL(l) == /\ rd = LS(l) /\ StopNow(LS(l)) /\ rd' = None /\ cnt' = 0
+                /\ UNCHANGED core /\ UNCHANGED <<rq, inEvt, steps>>
+ReadStopC(c) == /\ rd = CS(c) /\ StopNow(CS(c)) /\ rd' = None /\ cnt' = 0
+                /\ UNCHANGED core /\ UNCHANGED <<rq, inEvt, steps>>
 
 Next == \/ \E p \in Peers, l \in Listeners, z \in Sizes : DgKnown(p, l, z) \/ DgAccept(p, l, z) \/ DgCapDrop(p, l, z)
         \/ \E p \in Peers : Connect(p)
@@ -228,6 +290,10 @@ Next == \/ \E p \in Peers, l \in Listeners, z \in Sizes : DgKnown(p, l, z) \/ Dg
         \/ \E s \in Sids, z \in Sizes : SendOk(s, z) \/ SendEagain(s, z) \/ SendEagainBp(s, z) \/ SendErr(s, z) \/ SendClosed(s, z)
         \/ \E l \in Listeners : BlockL(l) \/ UnblockL(l) \/ FlushL(l)
         \/ \E s \in Sids : BlockC(s) \/ UnblockC(s) \/ FlushC(s)
+        \/ \E p \in Peers, l \in Listeners, z \in Sizes : ArriveL(p, l, z)
+        \/ \E p \in Peers, c \in Sids, z \in Sizes : ArriveC(p, c, z)
+        \/ \E l \in Listeners : EpollInL(l) \/ ReadKnown(l) \/ ReadAccept(l) \/ ReadCapDrop(l) \/ ReadStopL(l)
+        \/ \E c \in Sids : EpollInC(c) \/ ReadC(c) \/ ReadStopC(c)
 
 Spec == Init /\ [][Next]_vars
 
@@ -248,6 +314,9 @@ Inv_Addressed == /\ \A w \in wire : w.id \in DOMAIN sent /\ w.to = sent[w.id]
 \* the index is never stale (readFromListener dereferences _sessions[index[p]] unchecked)
 Inv_Index == \A p \in Peers : peerIndex[p] # 0 =>
                  (IsOpen(peerIndex[p]) /\ sess[peerIndex[p]].role # "cli" /\ sess[peerIndex[p]].peer = p)
+\* no datagram is stranded: when the I/O thread is idle and epoll has nothing queued for a socket, its receive queue is empty
+\* ("each datagram received is delivered as exactly one data event" - also the 200th of a burst)
+Inv_NoStrand == (rd = None /\ ~FlushPending) => \A k \in RSocks : (LiveSock(k) /\ ~Ready(k)) => rq[k] = <<>>
 \* inductive form of sticky routing (used in the exhaustive run of the repaired design only)
 Inv_IndexOwner == \A p \in Peers, l \in Listeners : OwnerOpen(p, l) => peerIndex[p] = owner[<<p, l>>]
 =============================================================================
